@@ -539,4 +539,284 @@ example :
       [[.sent .noop, .sent (.localRec 21), .sent (.global 1)], [.installed], [.rejected 2, .sent (.global 1)]] := by
   decide
 
+/-! ### round 3: faults inside recorder calls, emissions from inside a dispatched call -/
+
+/-- a nested lookup is left at the head of a thread's program only by a call that answered `Some` -/
+theorem settle_head_nested (r : Res) (cs : List Call) (h : (settle r cs).head? = some Call.nested) :
+    r.isSome = true := by
+  induction cs with
+  | nil => simp [settle] at h
+  | cons c rest ih =>
+    cases c with
+    | set x => simp [settle] at h
+    | load => simp [settle] at h
+    | nested =>
+      simp only [settle] at h
+      by_cases hs : r.isSome = true
+      · exact hs
+      · rw [if_neg hs] at h; exact ih h
+
+/-- what one thread step does to the thread's program: nothing, or the current call completes with an answer
+    `r` (then `settle r` decides which nested lookups exist) — and an answer `Some` comes from the read step only -/
+theorem stepThread_calls (o : Ord) (s : Sys) (t : Thread) :
+    (stepThread o s t).2.calls = t.calls
+    ∨ ∃ r, (stepThread o s t).2 = t.advance r ∧ (r.isSome = true → t.pc = .read) := by
+  unfold stepThread
+  split
+  · exact Or.inl rfl
+  · exact Or.inl rfl
+  · split
+    · exact Or.inl rfl
+    · exact Or.inr ⟨_, rfl, by simp [Res.isSome]⟩
+  · exact Or.inl rfl
+  · exact Or.inr ⟨_, rfl, by simp [Res.isSome]⟩
+  · split
+    · exact Or.inl rfl
+    · exact Or.inr ⟨_, rfl, by simp [Res.isSome]⟩
+  · split
+    · exact Or.inl rfl
+    · exact Or.inr ⟨_, rfl, by simp [Res.isSome]⟩
+  · rename_i hp _; exact Or.inr ⟨_, rfl, fun _ => hp⟩
+  · rename_i hp _; exact Or.inr ⟨_, rfl, fun _ => hp⟩
+  · exact Or.inl rfl
+
+/-- every thread that is about to make a nested lookup (an emission from inside a dispatched call) does so in
+    an initialised cell -/
+def NestedOK (s : Sys) : Prop := ∀ t ∈ s.threads, t.calls.head? = some Call.nested → s.state = 2
+
+theorem init_nestedOK (progs : List (List Call)) : NestedOK (init progs) := by
+  intro t ht hn
+  simp only [init, List.mem_map] at ht
+  obtain ⟨p, _, rfl⟩ := ht
+  have := settle_head_nested .none p hn
+  simp [Res.isSome] at this
+
+theorem step_nestedOK (o : Ord) (s : Sys) (tid : Nat) (h : Inv o s) (hn : NestedOK s) :
+    NestedOK (step o s tid) := by
+  have hmono := step_state_mono o s tid h
+  intro u hu hhead
+  have key : s.state = 2 := by
+    unfold step at hu
+    cases hg : s.threads[tid]? with
+    | none => rw [hg] at hu; exact hn u hu hhead
+    | some t =>
+      rw [hg] at hu
+      simp only at hu
+      have hth := stepThread_threads o s t
+      have hmem : t ∈ s.threads := List.mem_of_getElem? hg
+      rw [hth] at hu
+      rcases mem_setAt hu with rfl | hu
+      · rcases stepThread_calls o s t with hc | ⟨r, hr, hsome⟩
+        · rw [hc] at hhead; exact hn t hmem hhead
+        · rw [hr] at hhead
+          have := settle_head_nested r t.calls.tail hhead
+          exact (h.thr t hmem).at_read (hsome this)
+      · exact hn u hu hhead
+  exact (hmono key).1
+
+theorem run_nestedOK (o : Ord) (sched : List Nat) :
+    ∀ s, Inv o s → NestedOK s → NestedOK (run o s sched) := by
+  induction sched with
+  | nil => intro s _ h; exact h
+  | cons t ts ih => intro s h hn; exact ih _ (step_inv o s t h) (step_nestedOK o s t h hn)
+
+/-- **an emission made from inside a dispatched call finds the installed recorder**: for ANY programs and ANY
+    schedule, whenever a thread is about to make (or is making) a nested lookup, the cell is initialised and
+    holds a recorder — so by `nested_lookup_reads`/`nested_read_returns_cell` that lookup answers `Some` of
+    it, and by `same_recorder` it is the recorder the enclosing call was dispatched to. It never falls back
+    to the no-op recorder. -/
+theorem nested_dispatch_finds_recorder (o : Ord) (progs : List (List Call)) (sched : List Nat)
+    (t : Thread) (ht : t ∈ (run o (init progs) sched).threads) (hn : t.calls.head? = some Call.nested) :
+    (run o (init progs) sched).state = 2 ∧ ∃ r, (run o (init progs) sched).cell = some r := by
+  have h := reachable_inv o progs sched
+  have h2 := run_nestedOK o sched _ (init_inv o progs) (init_nestedOK progs) t ht hn
+  exact ⟨h2, h.cell2 h2⟩
+
+/-- a nested lookup in an initialised cell goes on to read it (does not answer `None`) … -/
+theorem nested_lookup_reads (o : Ord) (s : Sys) (t : Thread) (rest : List Call)
+    (hpc : t.pc = .loadState) (hc : t.calls = .nested :: rest) (h2 : s.state = 2) :
+    (stepThread o s t).2.pc = .read ∧ (stepThread o s t).2.results = t.results := by
+  unfold stepThread; rw [hpc, hc]; simp [h2]
+
+/-- … and answers exactly the recorder in the cell -/
+theorem nested_read_returns_cell (o : Ord) (s : Sys) (t : Thread) (rest : List Call) (w : Nat)
+    (hpc : t.pc = .read) (hc : t.calls = .nested :: rest) (hw : s.cell = some w) :
+    (stepThread o s t).2.results = t.results ++ [Res.some w] := by
+  unfold stepThread; rw [hpc, hc]; simp [hw, advance_results]
+
+/-- a lookup that misses cancels the nested lookups behind it (the no-op recorder emits nothing) and leaves
+    the rest of the program alone -/
+theorem miss_cancels_nested (k : Nat) (cs : List Call) (hcs : cs.head? ≠ some Call.nested) :
+    settle .none (List.replicate k Call.nested ++ cs) = cs := by
+  induction k with
+  | zero =>
+    cases cs with
+    | nil => rfl
+    | cons c rest => cases c <;> simp_all [settle]
+  | succ n ih => simp [List.replicate_succ, settle, Res.isSome, ih]
+
+open MetricsVerif.GlobalRec in
+/-- the same API call with the recorder's panic taken out -/
+def calm : GCall → GCall
+  | .emitPanic => .emit
+  | .emitLocalPanic l => .emitLocal l
+  | c => c
+
+open MetricsVerif.GlobalRec in
+theorem toCell_calm (p : List GCall) : toCell (p.map calm) = toCell p := by
+  induction p with
+  | nil => rfl
+  | cons c cs ih => cases c <;> simp [calm, toCell, ih]
+
+open MetricsVerif.GlobalRec in
+/-- **a caught panic inside a recorder call is invisible to the lookup layer**: for ANY API programs and ANY
+    schedule the process is in exactly the state it would be in had none of the recorder calls panicked — the
+    layer keeps nothing across a call (`src_global_layer`: one thread-local, the local slot; every branch of
+    `with_recorder` is the bare application `f(..)`), so there is nothing an unwinding call could leave behind,
+    on its own thread or any other. -/
+theorem caught_panic_is_invisible (o : Ord) (gprogs : List (List GCall)) (sched : List Nat) :
+    grun o (gprogs.map (·.map calm)) sched = grun o gprogs sched := by
+  unfold grun ginit
+  congr 2
+  rw [List.map_map]
+  apply List.map_congr_left
+  intro p _
+  exact toCell_calm p
+
+open MetricsVerif.GlobalRec in
+/-- an observation that was delivered in full to the global recorder `r` (or to a local recorder in scope) -/
+def Delivered (r : Nat) : GRes → Prop
+  | .sent (.global x) => x = r
+  | .sent (.localRec _) => True
+  | .unwound (.global x) => x = r
+  | .unwound (.localRec _) => True
+  | .sentAll ts => ts ≠ [] ∧ ∀ t ∈ ts, t = Target.global r
+  | _ => False
+
+open MetricsVerif.GlobalRec in
+theorem takeNested_mem (n : Nat) (rs : List Res) :
+    (∀ x ∈ (takeNested n rs).1, x ∈ rs) ∧ (∀ x ∈ (takeNested n rs).2, x ∈ rs) := by
+  induction n generalizing rs with
+  | zero => simp [takeNested]
+  | succ n ih =>
+    cases rs with
+    | nil => simp [takeNested]
+    | cons r rs =>
+      simp only [takeNested]
+      split
+      · have := ih rs
+        refine ⟨?_, ?_⟩
+        · intro x hx
+          simp only [List.mem_cons] at hx ⊢
+          rcases hx with hx | hx
+          · exact Or.inl hx
+          · exact Or.inr (this.1 x hx)
+        · intro x hx; exact List.mem_cons_of_mem _ (this.2 x hx)
+      · refine ⟨?_, ?_⟩
+        · intro x hx; simp only [List.mem_singleton] at hx; simp [hx]
+        · intro x hx; exact List.mem_cons_of_mem _ hx
+
+open MetricsVerif.GlobalRec in
+/-- **whatever a thread does once its lookups find `r`, it is delivered**: for any emitting program (plain,
+    panicking, nested to any depth, from inside a closure, under local recorders — in any order), if every
+    lookup the thread completed answered `Some r` then every observation is `Delivered r`: a caught panic or a
+    nested emission earlier in the program does not change where the later ones go -/
+theorem observe_all_delivered (r : Nat) (p : List GCall) (hp : ∀ c ∈ p, ∀ x, c ≠ GCall.install x) :
+    ∀ (rs : List Res), (∀ x ∈ rs, x = Res.some r) → ∀ g ∈ observe p rs, Delivered r g := by
+  induction p with
+  | nil => intro rs _ g hg; simp [observe] at hg
+  | cons c cs ih =>
+    have ihc := ih (fun c hc => hp c (List.mem_cons_of_mem _ hc))
+    intro rs hrs g hg
+    cases c with
+    | install x => exact absurd rfl (hp _ (by simp) x)
+    | emitLocal l =>
+      simp only [observe, List.mem_cons] at hg
+      rcases hg with rfl | hg
+      · simp [dispatch, Delivered]
+      · exact ihc rs hrs g hg
+    | emitLocalPanic l =>
+      simp only [observe, List.mem_cons] at hg
+      rcases hg with rfl | hg
+      · simp [dispatch, Delivered]
+      · exact ihc rs hrs g hg
+    | emit =>
+      cases rs with
+      | nil => simp [observe] at hg
+      | cons x xs =>
+        have hx := hrs x (by simp)
+        simp only [observe, List.mem_cons] at hg
+        rcases hg with rfl | hg
+        · simp [hx, ofRes, dispatch, Delivered]
+        · exact ihc xs (fun y hy => hrs y (List.mem_cons_of_mem _ hy)) g hg
+    | emitPanic =>
+      cases rs with
+      | nil => simp [observe] at hg
+      | cons x xs =>
+        have hx := hrs x (by simp)
+        simp only [observe, List.mem_cons] at hg
+        rcases hg with rfl | hg
+        · simp [hx, ofResPanic, Delivered]
+        · exact ihc xs (fun y hy => hrs y (List.mem_cons_of_mem _ hy)) g hg
+    | emitNested k =>
+      cases rs with
+      | nil => simp [observe] at hg
+      | cons x xs =>
+        have hx := hrs x (by simp)
+        have hm := takeNested_mem (k + 1) (x :: xs)
+        simp only [observe, List.mem_cons] at hg
+        rcases hg with rfl | hg
+        · refine ⟨?_, ?_⟩
+          · simp [takeNested, hx, Res.isSome]
+          · intro t ht
+            simp only [List.mem_map] at ht
+            obtain ⟨y, hy, rfl⟩ := ht
+            rw [hrs y (hm.1 y hy)]; rfl
+        · exact ihc _ (fun y hy => hrs y (hm.2 y hy)) g hg
+    | emitIn =>
+      cases rs with
+      | nil => simp [observe] at hg
+      | cons x xs =>
+        cases xs with
+        | nil => simp [observe] at hg
+        | cons y ys =>
+          have hx := hrs x (by simp)
+          have hy := hrs y (by simp)
+          simp only [observe, List.mem_cons] at hg
+          rcases hg with rfl | hg
+          · simp [hx, hy, dispatch, Delivered]
+          · exact ihc ys (fun z hz => hrs z (by simp [hz])) g hg
+
+/-- obligation: in every branch of `with_recorder` the application `f(..)` is the WHOLE innermost block — no
+    statement before it inside the branch, none after it returns (so no per-call state is set up or torn down
+    around the call into the recorder, and nothing is skipped when the call unwinds) — and the module neither
+    catches nor inspects unwinding. With `src_global_layer` (one thread-local: the local slot) this is what
+    `caught_panic_is_invisible` and the static projection `toCell` stand on. -/
+theorem src_dispatch_is_bare_call :
+    Generated.with_recorder_f_blocks = ["{f(recorder.as_ref())}", "{f(global_recorder)}", "{f(&NOOP_RECORDER)}"]
+    ∧ Generated.global_unwind_mentions = 0 := by decide
+
+/-! non-vacuity of round 3 -/
+
+/-- the thread that goes on after a fault: emits (no-op), the installation lands, emits, its recorder call panics
+    (caught), emits again, then a recorder that emits from inside the call two levels deep, then a closure -/
+example :
+    let progs : List (List GlobalRec.GCall) := [[.emit, .emit, .emitPanic, .emit, .emitNested 2, .emitIn], [.install 1]]
+    let s := GlobalRec.grun { storeRelease := true, loadAcquire := true } progs
+      [0, 0, 1, 1, 1, 1, 0, 0, 0, 0, 0, 0, 0, 0, 0, 0, 0, 0, 0, 0, 0, 0, 0, 0, 0]
+    GlobalRec.gobserve progs s =
+      [[.sent .noop, .sent (.global 1), .unwound (.global 1), .sent (.global 1),
+        .sentAll [.global 1, .global 1, .global 1], .sentAll [.global 1, .global 1]], [.installed]] := by
+  decide
+
+/-- before the installation the same faults do nothing: no recorder is reached, so nothing panics and nothing
+    is emitted from inside; the nested lookups are cancelled (two steps per call, not six) -/
+example :
+    let progs : List (List GlobalRec.GCall) := [[.emitPanic, .emitNested 2, .emitIn, .emitLocalPanic 7]]
+    let s := GlobalRec.grun { storeRelease := true, loadAcquire := true } progs [0, 0, 0, 0, 0]
+    GlobalRec.gobserve progs s
+      = [[.sent .noop, .sentAll [.noop], .sentAll [.noop, .noop], .unwound (.localRec 7)]]
+    ∧ (s.threads.map (·.pc)) = [.done] := by
+  decide
+
 end MetricsVerif.C02
